@@ -109,8 +109,10 @@ pub const FLAVOURS: [Flavour; 9] = [
     Flavour { naming: Naming::Host, style: Style::Mixed, fnkind: FnKind::None, fn_after: false, decoys: false },
 ];
 
-/// flavours used for k >= 5 (thorough tier)
-pub const WIDE_FLAVOURS: [usize; 3] = [3, 5, 6];
+/// flavours used for k = 5 (thorough tier). The all-`foo` flavours are left
+/// out: five blocks in at most three modules always repeat a name within a
+/// module, so every such package is only a compile error.
+pub const WIDE_FLAVOURS: [usize; 3] = [3, 6, 7];
 
 pub const NAMES: [&str; 6] = ["foo", "bar", "baz", "qux", "zed", "abc"];
 /// functions registered by the harness runtime (`host::lib`)
